@@ -437,6 +437,87 @@ theorem suffix_probe_effect (probe : PItem) (s : Str) (h : probe.action = .suffi
       intro it; simp [PItem.probeActs, h, PItem.renamesFieldOf, PItem.actsOnItem, hr]
     simp [PItem.step, hr, this]
 
+/-! ### Round 5: values of mixed kinds, escaped wildcard characters, field references -/
+
+/-- `contains_detection_item` asks for MEMBERSHIP: it holds iff some detection item of that field has
+some value that equals the parameter — wherever that value stands in the value list and whatever
+the kinds of the values listed before it -/
+theorem contains_detection_item_iff_member (w : World) (f : Str) (v : Scalar) :
+    RuleCond.eval w (.containsDetItem f v) = true ↔
+      ∃ it ∈ w.items, it.field = some f ∧ ∃ x ∈ it.values, x.eqParam v = true := by
+  simp [RuleCond.eval, List.any_eq_true]
+
+/-- … in particular a value that follows values of other kinds is found -/
+theorem contains_detection_item_any_position (w : World) (it : DetItem) (hit : it ∈ w.items) (f : Str) (hf : it.field = some f)
+    (before after : List Val) (x : Val) (hv : it.values = before ++ x :: after) (v : Scalar) (hx : x.eqParam v = true) :
+    RuleCond.eval w (.containsDetItem f v) = true :=
+  (contains_detection_item_iff_member w f v).mpr ⟨it, hit, hf, x, by simp [hv], hx⟩
+
+/-- `EventID: [4624, svc]` contains the string `svc` (after a number) and the number 4624; `[svc, true, 7]` contains 7 -/
+example :
+    let w := { emptyWorld with items := [docItem "sel" "EventID" [.num (Num.ofInt 4624), sv "svc"], docItem "sel" "F" [sv "svc", .bool true, .num (Num.ofInt 7)]] }
+    RuleCond.eval w (.containsDetItem "EventID".toList (.str "svc".toList)) = true ∧
+    RuleCond.eval w (.containsDetItem "EventID".toList (.num (Num.ofInt 4624))) = true ∧
+    RuleCond.eval w (.containsDetItem "F".toList (.num (Num.ofInt 7))) = true ∧
+    RuleCond.eval w (.containsDetItem "F".toList (.bool true)) = true ∧
+    RuleCond.eval w (.containsDetItem "EventID".toList (.str "4624".toList)) = false := by decide
+
+/-- `contains_wildcard` on a string value answers what the TEXT of the value says: it contains an
+asterisk or question mark that is not escaped by a backslash (`unescapedWildcard`, an independent
+scan of the text); `\*` and `\?` are literal characters, `\\*` is a backslash followed by a wildcard -/
+theorem contains_wildcard_iff_unescaped (s : Str) :
+    SStr.containsSpecial (SStr.parse s) = unescapedWildcard s :=
+  containsSpecial_parse_aux s.length s (Nat.le_refl _)
+
+/-- … hence for an item whose values are the strings written `ts`, under any / all -/
+theorem contains_wildcard_on_texts (w : World) (it : DetItem) (ts : List Str) (all : Bool)
+    (hv : it.values = ts.map fun t => Val.str (SStr.parse t)) :
+    DetCond.eval m w it (.containsWildcard all) = if all then ts.all unescapedWildcard else ts.any unescapedWildcard := by
+  simp only [DetCond.eval, quantify, hv]
+  cases all <;> simp [List.all_map, List.any_map, Function.comp_def, contains_wildcard_iff_unescaped]
+
+example : unescapedWildcard "/index.php\\?id=1".toList = false ∧ unescapedWildcard "rundll32 \\*.dll".toList = false ∧
+          unescapedWildcard "dir\\\\*".toList = true ∧ unescapedWildcard "a?".toList = true ∧
+          unescapedWildcard "C:\\Windows\\x".toList = false := by
+  simp only [← contains_wildcard_iff_unescaped]; decide
+example : DetCond.eval noRe emptyWorld (docItem "sel" "f" [sv "a\\?b", sv "c"]) (.containsWildcard false) = false ∧
+          DetCond.eval noRe emptyWorld (docItem "sel" "f" [sv "a\\?b", sv "c*"]) (.containsWildcard true) = false ∧
+          DetCond.eval noRe emptyWorld (docItem "sel" "f" [sv "a\\\\?b", sv "c*"]) (.containsWildcard true) = true := by decide
+
+/-- a field-name transformation on the FIELD REFERENCES of a detection item: when the item's
+detection-item group and field-name group hold on the item, every referenced field is renamed by
+the same decision `rename` as a field name of its own (field-name group ON THAT NAME, linking /
+negation / expression included); otherwise the references stay -/
+theorem field_transformation_on_references (p : PItem) (w : World) (it : DetItem) :
+    (p.mapItem m w it).refs =
+      if p.detHolds m w it && p.fieldHoldsOnItem m w it then it.refs.map (p.rename m w) else it.refs := by
+  by_cases hg : (p.detHolds m w it && p.fieldHoldsOnItem m w it) = true
+  · simp only [PItem.mapItem, hg, if_true, DetItem.refs]
+    exact refs_map_rename (p.rename m w) it.values
+  · simp [PItem.mapItem, hg]
+
+/-- the decision for one name under a suffix transformation: renamed iff the field-name group holds on the name -/
+theorem suffix_rename_iff (p : PItem) (s : Str) (h : p.action = .suffix s) (w : World) (f : Str) :
+    p.rename m w f = if p.fieldHoldsOnName m w (some f) then f ++ s else f := by
+  simp [PItem.rename, PItem.maps, h, Action.target]
+
+/-- a negated field-name group (one or more conditions) holds on a name exactly where the un-negated group does not —
+for the field of an item and for a referenced field alike, in list form and in expression form -/
+theorem negated_field_group_on_name (conds : List FieldCond) (hc : conds ≠ []) (link : Gate.Link) (w : World) (n : Option Str) :
+    (⟨conds, link, true⟩ : PipeConds.Group FieldCond).holds (FieldCond.onName m w n) =
+      !(⟨conds, link, false⟩ : PipeConds.Group FieldCond).holds (FieldCond.onName m w n) := by
+  cases conds with
+  | nil => exact absurd rfl hc
+  | cons c r => simp [PipeConds.Group.holds]
+
+/-- `src|fieldref: ref` under a suffix item with `field_name_cond_expr: sel`, `field_name_cond_not: true`
+where `sel = include_fields [other]`: the negated expression holds for `src` and for `ref`, both are renamed -/
+example :
+    let p : PItem := { id := some "probe".toList, rule := noGroup, det := noGroup,
+                       field := ⟨[.incl ["other".toList] false], .expr (.id 0), true⟩, action := .suffix "_X".toList }
+    let it : DetItem := { det := "sel".toList, field := some "src".toList, values := [.ref "ref".toList], applied := [] }
+    (p.mapItem noRe emptyWorld it).field = some "src_X".toList ∧ (p.mapItem noRe emptyWorld it).refs = ["ref_X".toList] := by decide
+
 end Conds
 
 /-! ## Non-vacuity on the rule document of the harness (`harness/c13.py` `RULEDOC`) -/
